@@ -35,7 +35,9 @@ def _wire_rows(rng: random.Random, per_pgn: int):
                    if n.startswith("is_fast_pgn_")})
     # one long-lived encoder / decoder per format, as a gateway client uses them: nothing they remember from an
     # earlier message (same PGN, source and priority, another destination) may show in a later identifier
-    live = {fmt: (NMEA2000Encoder(), NMEA2000Decoder()) for fmt in ("ebyte", "usb", "yd")}
+    # (ONE encoder serves the three formats in turn - a bridge between two gateways - and one decoder per format)
+    shared_enc = NMEA2000Encoder()
+    live = {fmt: (shared_enc, NMEA2000Decoder()) for fmt in ("ebyte", "usb", "yd")}
     for pgn in nums:
         d0 = NMEA2000Decoder()
         try:
